@@ -29,10 +29,12 @@ const encFns = (v) => (typeof v === 'function' ? { $fn: v.name } : v === null ||
 const decFns = (v) => (v === null || typeof v !== 'object' ? v : Array.isArray(v) ? v.map(decFns) : typeof v.$fn === 'string' ? G.FNS[v.$fn] : Object.fromEntries(Object.keys(v).map((k) => [k, decFns(v[k])])))
 
 const INITIAL = [
-  { f: G.FNS.f1, x: 'X', y: 'Y', c: 1, d: 0, d2: 1, a: { b: 'B' }, n: 't', b: 'BB', list: [{ id: 1, v: 'p' }, { id: 2, v: 'q' }, { id: 3, v: 'r' }, { id: 4, v: 's' }, { id: 5, v: 'u' }], obj: { a: { id: 1, v: 'p' }, b: { id: 2, v: 'q' }, c: { id: 3, v: 'r' } } },
-  { x: undefined, y: null, c: 0, d: 1, d2: 0, a: undefined, n: 'u', b: undefined, list: [], obj: {} },
+  { toString: 0, constructor: 'K', f: G.FNS.f1, x: 'X', y: 'Y', c: 1, d: 0, d2: 1, a: { b: 'B' }, n: 't', b: 'BB', list: [{ id: 1, v: 'p' }, { id: 2, v: 'q' }, { id: 3, v: 'r' }, { id: 4, v: 's' }, { id: 5, v: 'u' }], obj: { a: { id: 1, v: 'p' }, b: { id: 2, v: 'q' }, c: { id: 3, v: 'r' } } },
+  { toString: 1, constructor: undefined, x: undefined, y: null, c: 0, d: 1, d2: 0, a: undefined, n: 'u', b: undefined, list: [], obj: {} },
 ]
-const ALT = {
+const ALT = Object.assign(Object.create(null), {
+  toString: [0, 1, undefined],
+  constructor: ['K', undefined, 0],
   f: [G.FNS.f1, G.FNS.f2, undefined],
   x: ['X', 'X2', undefined, null, 0, '', 7],
   y: ['Y', 'Y2', undefined, 0],
@@ -44,7 +46,7 @@ const ALT = {
   a: [{ b: 'B' }, { b: 'B2' }, undefined, null, { b: undefined }],
   obj: [{ a: { id: 1, v: 'p' }, b: { id: 2, v: 'q' }, c: { id: 3, v: 'r' } }, {}, { b: { id: 2, v: 'q' }, a: { id: 1, v: 'p' } }, { a: { id: 1, v: 'p' }, z: { id: 9, v: 'new' }, b: { id: 2, v: 'q' } }, undefined, { a: { id: 2, v: 's' }, b: { id: 2, v: 't' } }, { z: { id: 1, v: 'p' }, b: { id: 2, v: 'q' }, c: { id: 3, v: 'r' } }, { a: { id: 1, v: 'p' }, b: { id: 2, v: 'q' }, y: { id: 3, v: 'r' } }],
   list: [[{ id: 1, v: 'p' }, { id: 2, v: 'q' }, { id: 3, v: 'r' }, { id: 4, v: 's' }, { id: 5, v: 'u' }], [{ id: 1, v: 'p' }, { id: 2, v: 'q' }, { id: 3, v: 'r' }], [], [{ id: 3, v: 'r' }, { id: 1, v: 'p' }], [1, 2], ['', 0], { k: 1, m: 2 }, 'ab', 2, undefined, null, [[1, 2], 'xy'], { p: { id: 1, v: 'p' }, q: { id: 2, v: 'q' }, r: { id: 3, v: 'r' }, s: { id: 4, v: 's' }, t: { id: 5, v: 'u' } }],
-}
+})
 
 function setPath(data, path, value) {
   const d = clone(data)
@@ -350,10 +352,12 @@ const CHILD_TEMPLATES = {
   'comp/single': '<slot u="{{p}}" u-v="{{p}}" v="{{p}}" a="{{q}}" zz="{{q}}" w="{{q}}"/><slot name="s" u="{{p}}" v="{{q}}"/>',
   'comp/repeated': '<block wx:for="{{ps}}"><slot u="{{item}}" u-v="{{item}}" v="{{item}}" a="{{q}}"/></block><slot name="s" u="{{p}}"/>',
   'comp/conditional': '<block wx:if="{{on}}"><slot u="{{p}}" u-v="{{q}}" v="{{p}}"/></block><slot wx:else name="s" u="{{q}}"/>',
+  // two slots of the same name: the content is instantiated once per slot
+  'comp/double': '<div><slot u="{{p}}" v="{{q}}"/></div><div><slot u="{{q}}" v="{{p}}"/></div><slot name="s" u="{{p}}"/>',
 }
 const CHILD_INITIAL = { p: 'P', q: 'Q', ps: ['p1', 'p2'], on: 1 }
 const CHILD_ALT = { p: ['P', 'P2', undefined, { b: 'pb' }, 0], q: ['Q', 'Q2', undefined], ps: [['p1', 'p2'], [], ['p1'], ['p2', 'p1'], ['p1', 'p2', 'p3'], ['p0', 'p1', 'p2']], on: [1, 0] }
-const CHILD_FIELDS = { 'comp/single': ['p', 'q'], 'comp/repeated': ['ps', 'q', 'p'], 'comp/conditional': ['on', 'p', 'q'] }
+const CHILD_FIELDS = { 'comp/single': ['p', 'q'], 'comp/repeated': ['ps', 'q', 'p'], 'comp/conditional': ['on', 'p', 'q'], 'comp/double': ['p', 'q'] }
 
 function childTransitions(cdata, child) {
   const out = []
@@ -491,7 +495,8 @@ function corpus(thorough) {
   return G.corpus(thorough).filter(usable)
 }
 function slotCorpus(thorough) {
-  return MODE === 'C14' || MODE === 'C04' ? [] : G.corpus(thorough).filter((c) => !usable(c))
+  // (content of the element c without slot: references is explored here as well: c is then a component with dynamic slots)
+  return MODE === 'C14' || MODE === 'C04' ? [] : G.corpus(thorough).filter((c) => !usable(c) || JSON.stringify(c.main).includes('"tag":"c"'))
 }
 
 function runShard(info, thorough) {
